@@ -416,8 +416,8 @@ func (e *Env) ident(name string) Term {
 	}
 	// ghost variable
 	if ty, ok := vc.P.spec.GhostVars[name]; ok {
-		_, sort := e.resolveType(ty)
-		return Term{S: vc.get(e.st, "G_"+name, sort), Sort: sort}
+		gt, sort := e.resolveType(ty)
+		return Term{S: vc.get(e.st, "G_"+name, sort), Sort: sort, T: gt}
 	}
 	// package-level object
 	if e.pkg != nil {
@@ -724,6 +724,9 @@ func (e *Env) call(x *ECall) Term {
 	case "has":
 		m := e.tr(x.Args[0])
 		k := e.tr(x.Args[1])
+		if m.T == nil {
+			e.fail("has() needs a map")
+		}
 		mt, ok := types.Unalias(m.T).Underlying().(*types.Map)
 		if !ok {
 			e.fail("has() needs a map")
